@@ -29,7 +29,8 @@ SetterCalls ==
 EntrySetterCalls ==
   {[f |-> "mods", v |-> "HR", w |-> FALSE], [f |-> "clock", v |-> "in", w |-> FALSE],
    [f |-> "passed", v |-> "p2", w |-> FALSE], [f |-> "passed", v |-> "p1000", w |-> FALSE],
-   [f |-> "ar", v |-> "in", w |-> FALSE], [f |-> "od", v |-> "in", w |-> TRUE], [f |-> "lazer", v |-> "F", w |-> FALSE]}
+   [f |-> "ar", v |-> "in", w |-> FALSE], [f |-> "od", v |-> "in", w |-> TRUE], [f |-> "lazer", v |-> "F", w |-> FALSE],
+   [f |-> "cs", v |-> "in", w |-> FALSE], [f |-> "hp", v |-> "in", w |-> TRUE], [f |-> "hro", v |-> "T", w |-> FALSE]}
 
 Entries == {"map_ref", "map_owned", "mode_map", "diff_attrs", "perf_attrs", "attrs_method", "perf_attrs_method", "mode_attrs"}
 
